@@ -131,6 +131,12 @@ def run(ctx: core.Ctx):
             for j in range(2):
                 cube[:, i, j] = gen.series(rng, nobs, "ndvi")
         t = np.arange(nobs).astype("datetime64[D]")
+        # the observations are taken in the order in which they are stored (mark order); the values of the time coordinate play no role
+        # (a season crossing New Year on a dummy-year axis, files concatenated in another order, a descending axis)
+        if k % 3 == 1:
+            t = t[::-1].copy()
+        elif k % 3 == 2:
+            t = np.roll(t, nobs // 2)
         # every int16 value is an observation for whitint (the array's nodata attribute, if any, plays no role): one pixel passes through
         # the attribute's value once
         attrs = {} if k % 2 else {"nodata": -9999}
